@@ -24,6 +24,9 @@ Alphabet ==
      {Msg("b", o, "vec", "ok", P) : o \in {"dealer", "other"}, P \in Polys}
 \cup {Msg("b", "dealer", "vec", k, NONE) : k \in {"badsize", "notG2"}}
 \cup {Msg("b", "dealer", "vec", "badpoint", "PX")}
+\* a well-formed vector of a polynomial PZ with a root at this participant's evaluation point: its public key share is the
+\* identity and no well-formed share can match it (the share 0 is not encodable)
+\cup {Msg("b", "dealer", "vec", "ok", "PZ")}
 \cup {Msg("b", o, "junk", k, NONE) : o \in {"dealer", "other"}, k \in {"empty", "badtag"}}
 \cup {Msg("p", o, "share", "ok", P) : o \in {"dealer", "other"}, P \in Polys}
 \cup {Msg("p", "dealer", "share", "ok", "PX")}
